@@ -238,6 +238,22 @@ def step (st : DrvState) (f : List String) : DrvState × String :=
     (st, match EffExpr.ofString (unesc expr) with
          | none => "panic"
          | some e => effRun (Stream.new e cap.toNat!) seq.toList)
+  | "km" :: fname :: k :: pat :: rest =>
+    let v := match rest with | [x] => unesc x | _ => ""
+    let ob (o : Option Bool) : String := match o with | some b => boolS b | none => "unmodelled"
+    let os (o : Option Str) : String := match o with | some x => "s:" ++ esc (String.ofList x) | none => "unmodelled"
+    let k := (unesc k).toList; let pat := (unesc pat).toList
+    (st, match fname with
+      | "keyMatch" => boolS (keyMatch k pat)
+      | "keyGet" => "s:" ++ esc (String.ofList (keyGet k pat))
+      | "keyMatch2" => ob (keyMatch2 k pat)
+      | "keyGet2" => os (keyGet2 k pat v.toList)
+      | "keyMatch3" => ob (keyMatch3 k pat)
+      | "keyGet3" => os (keyGet3 k pat v.toList)
+      | "keyMatch4" => ob (keyMatch4 k pat)
+      | "keyMatch5" => ob (keyMatch5 k pat)
+      | "regexMatch" => ob (regexMatchAnchored k pat)
+      | _ => "bad-fn")
   | ["rm.new", n] => ({ st with rm := RoleMgr.new n.toNat! }, "ok")
   | ["rm.add", a, b, d] => ({ st with rm := st.rm.addLink (unesc a) (unesc b) (domOf d) }, "ok")
   | ["rm.del", a, b, d] =>
